@@ -637,6 +637,14 @@ class MemorizedFunc(Logger):
 
         return state
 
+    def __setstate__(self, state):
+        self.__dict__.update(state)
+        # The source code carried by the state is that of the code object the
+        # function has at this point: a later reassignment of func.__code__
+        # must be noticed by this copy as well.
+        if self._func_code_info is not None and hasattr(self.func, "__code__"):
+            self._func_code_id = self.func.__code__
+
     def check_call_in_cache(self, *args, **kwargs):
         """Check if the function call is cached and valid for given arguments.
 
